@@ -16,7 +16,7 @@ func init() { register("C15", checkC15) }
 const pkgEsWriter = "pkg/es/writer"
 
 func checkC15(c *core.Ctx, r *core.Report) {
-	r.Explanation = "[OWN — no map update is made through a value that may alias the process-wide created-item template that every successful response slot shares] [OWN — the map-building slice helpers of pkg/utils (ConvertSliceToMap builds the per-index batches of a bulk request) never append to a slice that may share their input's backing array] [POOL — an event object taken from writer.plePool carries no field value of its previous use when it is handed out: reset-on-get (Reset after Get and every other field assigned unconditionally) or reset-on-put (every Put preceded by Reset)] C15 (bulk ingest acknowledges exactly what it stored), loop discipline and error flow of HandleBulkBody only: " +
+	r.Explanation = "[DEPENDS (shared with C16) — ProcessIndexRequestPle stores the batch under, and picks the timestamp key by, the index name resolved through AddAndGetRealIndexName; the extraction with that key runs for every event] [OWN — no map update is made through a value that may alias the process-wide created-item template that every successful response slot shares] [OWN — the map-building slice helpers of pkg/utils (ConvertSliceToMap builds the per-index batches of a bulk request) never append to a slice that may share their input's backing array] [POOL — an event object taken from writer.plePool carries no field value of its previous use when it is handed out: reset-on-get (Reset after Get and every other field assigned unconditionally) or reset-on-put (every Put preceded by Reset)] C15 (bulk ingest acknowledges exactly what it stored), loop discipline and error flow of HandleBulkBody only: " +
 		"(1) LIVE — no value that decides an item's status (the conditions controlling which response item is stored) is carried over unchanged from the previous loop iteration (no sticky flags); " +
 		"(2) one response item per action — every trip around the action loop stores an element of the items slice; once an action is counted its slot is written before the loop goes on or ends; every item store goes into a slot derived from the per-action counter (directly or remembered per event in a local map); " +
 		"(3) every branch that stores a failure item makes the `errors` flag true; " +
@@ -28,6 +28,7 @@ func checkC15(c *core.Ctx, r *core.Report) {
 	checkPooledEvent(c, r)
 	checkInputNotClobbered(c, r)
 	checkSharedItemTemplate(c, r)
+	checkIndexTimestampKey(c, r)
 
 	fn := c.Fn(pkgEsWriter, "HandleBulkBody")
 	name := shortFn(fn)
@@ -728,7 +729,7 @@ func itemStoreHelper(h *ssa.Function, sliceIdx int, isOkItem func(ssa.Value) boo
 		bad := ""
 		core.WalkForward(h, st.st, func(in ssa.Instruction) bool {
 			if ret, ok := in.(*ssa.Return); ok {
-				k, isK := ret.Results[0].(*ssa.Const)
+				k, isK := core.RetResult(ret, 0).(*ssa.Const)
 				if len(ret.Results) != 1 || !isK || k.Value == nil || (k.Value.String() == "true") != st.succ {
 					bad = "the helper's answer does not tell a success item from a failure item"
 				}
